@@ -381,6 +381,16 @@ func runUnknown(c *core.Case) {
 	c.Distinct(core.HashString(tspec.Canon(tree)), cnt > 0)
 }
 
+func describe(n tspec.Node) string {
+	switch n.K {
+	case tspec.LIST, tspec.SET:
+		return fmt.Sprintf("%s<%s>", n.K, n.Elem)
+	case tspec.MAP:
+		return fmt.Sprintf("MAP<%s,%s>", n.Key, n.Val)
+	}
+	return n.K.String()
+}
+
 func clip(s string, n int) string {
 	if len(s) > n {
 		return s[:n] + "…"
@@ -496,9 +506,18 @@ func runRequired(c *core.Case) {
 		i := r.Intn(len(tree.Fields))
 		orig := tree.Fields[i].V.K
 		var other tspec.Node
-		for {
+		for try := 0; ; try++ {
 			other = randNode(r, 2)
 			if other.K != orig {
+				break
+			}
+			// same collection kind with other element types (only in strict mode a
+			// TypeMismatch; outside it the elements are skipped)
+			cur := tree.Fields[i].V
+			if try < 20 && r.Bool() && (orig == tspec.LIST || orig == tspec.SET) && other.Elem != cur.Elem && !(other.Elem == tspec.BOOL && cur.Elem == tspec.BOOL) && len(other.Items) > 0 {
+				break
+			}
+			if try < 20 && r.Bool() && orig == tspec.MAP && (other.Key != cur.Key || other.Val != cur.Val) && len(other.Pairs) > 0 {
 				break
 			}
 		}
@@ -517,9 +536,25 @@ func runRequired(c *core.Case) {
 				c.Violation("strict-type-mismatch|"+p.name, "not-reported", fmt.Sprintf("field %d holds a %s where the struct declares %s; a strict Decoder(%s) reports %v (input %x)", mut.Fields[i].ID, other.K, orig, p.name, o.err, tr(b)), map[string]any{"type": ttypes.TypeString(t), "input_hex": fmt.Sprintf("%x", tr(b))})
 				return
 			}
-			// outside strict mode the decoder must still be total
-			_, o = decode(p, b, t, false)
-			if !checkTotal(c, "nonstrict-type-mismatch", p, b, t, o) {
+			// outside strict mode the value that cannot be decoded is skipped: no error, the field
+			// keeps its zero value and every other field decodes as before
+			got, o2 := decode(p, b, t, false)
+			if !checkTotal(c, "nonstrict-type-mismatch", p, b, t, o2) {
+				return
+			}
+			want, _ := decode(p, p.encode(tree), t, false)
+			for _, fi := range fs {
+				if fi.ID == mut.Fields[i].ID {
+					want.FieldByIndex(fi.Index).SetZero()
+				}
+			}
+			w2 := map[string]any{"type": ttypes.TypeString(t), "input_hex": fmt.Sprintf("%x", tr(b)), "retyped_field": mut.Fields[i].ID}
+			if o2.err != nil {
+				c.Violation("nonstrict-type-mismatch|"+p.name, "rejected", fmt.Sprintf("field %d holds a %s where the struct declares %s; a non-strict decode(%s) fails: %v (input %x)", mut.Fields[i].ID, describe(other), describe(tree.Fields[i].V), p.name, o2.err, tr(b)), w2)
+				return
+			}
+			if ok, d := ttypes.Equal(want, got); !ok {
+				c.Violation("nonstrict-type-mismatch|"+p.name, "other-fields-disturbed", fmt.Sprintf("%s | field %d holds a %s where the struct declares %s; after the non-strict decode(%s) the other fields differ: want %s | got %s", d, mut.Fields[i].ID, describe(other), describe(tree.Fields[i].V), p.name, show(want), show(got)), w2)
 				return
 			}
 			c.Count("strict-type-mismatch.reported", 1)
@@ -805,7 +840,7 @@ func runReaders(c *core.Case) {
 func init() {
 	core.Register(&core.Monitor{
 		Prop:    "C08",
-		Rule:    "prefixes (struct targets, and every third case a bare list/set/map/string/number/pointer target): every prefix (all of them up to 400 bytes, 200 evenly spaced beyond) of a specification-conformant encoding of a generated value, both protocols: no panic, an error, io.EOF only for the empty input and an error that Is io.ErrUnexpectedEOF otherwise; the whole encoding decodes to the value; with 1-4 bytes appended Unmarshal reports an error. unknown-fields: fields with undeclared ids (negative, below/above/between the declared ones, at 63/64/65/127/128/129/32767) holding values of every thrift type incl. nested lists, sets, maps and structs are inserted into every struct level of the encoding: the decoded value is unchanged (strict and non-strict). required: the encoding with one required field removed yields *MissingField naming that field; an 8-step history of failing and succeeding decodes of one type gives each step the outcome it has in isolation; one field re-typed yields *TypeMismatch from a strict Decoder and no fault from a non-strict one. mutated / random: bit flips, byte substitutions, deletions, huge big-endian and varint sizes spliced into valid encodings, and random bytes biased to header values: no panic; bytes allocated (runtime.MemStats.TotalAlloc around the second and later calls for a type) within 1 MiB (64 KiB of preallocation per nesting level of the decoder, with map overhead) + 4 x len(input) x (largest element size of the target type incl. one bit per id of a struct's id range + 64). size-bombs: list, set, map, string and binary headers announcing 2^16 .. 2^32-1 elements followed by 0-23 bytes, or by slightly more real elements than the decoder preallocates: rejected within the same allocation budget. readers: every Reader method of both protocols on short arbitrary inputs: no panic, <= 256 KiB allocated, no negative sizes, fixed-width reads fail on short input.",
+		Rule:    "prefixes (struct targets, and every third case a bare list/set/map/string/number/pointer target): every prefix (all of them up to 400 bytes, 200 evenly spaced beyond) of a specification-conformant encoding of a generated value, both protocols: no panic, an error, io.EOF only for the empty input and an error that Is io.ErrUnexpectedEOF otherwise; the whole encoding decodes to the value; with 1-4 bytes appended Unmarshal reports an error. unknown-fields: fields with undeclared ids (negative, below/above/between the declared ones, at 63/64/65/127/128/129/32767) holding values of every thrift type incl. nested lists, sets, maps and structs are inserted into every struct level of the encoding: the decoded value is unchanged (strict and non-strict). required: the encoding with one required field removed yields *MissingField naming that field; an 8-step history of failing and succeeding decodes of one type gives each step the outcome it has in isolation; one field re-typed (another kind, or the same collection kind with other element types) yields *TypeMismatch from a strict Decoder; a non-strict one returns no error, leaves that field zero and decodes every other field as before. mutated / random: bit flips, byte substitutions, deletions, huge big-endian and varint sizes spliced into valid encodings, and random bytes biased to header values: no panic; bytes allocated (runtime.MemStats.TotalAlloc around the second and later calls for a type) within 1 MiB (64 KiB of preallocation per nesting level of the decoder, with map overhead) + 4 x len(input) x (largest element size of the target type incl. one bit per id of a struct's id range + 64). size-bombs: list, set, map, string and binary headers announcing 2^16 .. 2^32-1 elements followed by 0-23 bytes, or by slightly more real elements than the decoder preallocates: rejected within the same allocation budget. readers: every Reader method of both protocols on short arbitrary inputs: no panic, <= 256 KiB allocated, no negative sizes, fixed-width reads fail on short input.",
 		Trusted: []string{"harness/gen/tspec encoders for the valid encodings", "runtime.MemStats.TotalAlloc as the allocation meter (single goroutine)", "errors.Is(err, io.ErrUnexpectedEOF) as the 'unexpected-EOF class'"},
 		Subs: []core.Sub{
 			{Name: "prefixes", N: core.Const(1500, 60000), Run: runPrefixes},
